@@ -1167,6 +1167,105 @@ def view_models(ctx, torch, g, reqs, metas):
                             ctx.stats["view_model:sent-to-model"] += 1
 
 
+# ---- LARGE simulations ----------------------------------------------------------------------------------------------------------------
+# Everything above runs on markets of a few paths and a few steps.  Production simulations have tens of thousands of paths (or thousands
+# of time points), i.e. feature tensors of several million elements; the property quantifies over ALL simulated paths, so whatever
+# compute_hedge does for inputs of that size must obey the same two statements.  A small DETERMINISTIC corpus (every tier; float32; a tiny
+# linear model with dyadic weights drawn through g; the price series drawn from a local torch.Generator whose seed comes from g, so the
+# global random stream is untouched): all steps at once and, where affordable, step by step (prev_hedge among the inputs).
+LARGE_CORPUS = [
+    # (n_paths, n_time_points, features, also step by step)
+    (30000, 41, ["log_moneyness", "time_to_maturity", "volatility"], True),
+    (52000, 41, ["log_moneyness", "time_to_maturity"], True),
+    (70000, 41, ["moneyness", "underlier_spot"], False),
+    (180, 4001, ["log_moneyness", "time_to_maturity", "volatility"], False),     # a long maturity, few paths
+]
+
+
+def large_simulations(ctx, torch, g):
+    import pfhedge.instruments as I
+    from pfhedge.nn import Hedger
+    for N, T, feats, stepwise in LARGE_CORPUS:
+        for with_prev in ((False, True) if stepwise else (False,)):
+            names = feats + (["prev_hedge"] if with_prev else [])
+            w = [float(g.choice(NZ_W)) for _ in names]
+            b = float(g.choice([F(0), F(1, 2), F(-1, 4)]))
+            seed = g.randint(0, 2 ** 31 - 1)
+            dt = 1.0 / 250
+            gen = torch.Generator().manual_seed(seed)
+            spot = torch.exp(torch.cumsum(0.02 * torch.randn(N, T, generator=gen, dtype=torch.float32), dim=1))    # (N, T), around 1
+            u = I.BrownianStock(sigma=0.2, cost=1e-3, dt=dt, dtype=torch.float32)
+            d = I.EuropeanOption(u, strike=1.0, maturity=(T - 1) * dt)
+            model = torch.nn.Linear(len(names), 1)
+            with torch.no_grad():
+                model.weight.copy_(torch.tensor([w]))
+                model.bias.copy_(torch.tensor([b]))
+            hedger = Hedger(model, list(names))
+            case = {"large": True, "N": N, "T": T, "numel_of_input": N * T * len(names), "inputs": names, "H": 1, "dtype": "float32",
+                    "model": {"kind": "torch.nn.Linear", "w": w, "b": b}, "option": "EuropeanOption(strike=1)", "primary": "BrownianStock",
+                    "dt": "1/250", "spot": f"exp(cumsum(0.02 * randn(N, T, generator=Generator().manual_seed({seed}), dtype=float32), dim=1))",
+                    "evaluation": "step by step" if with_prev else "all steps at once"}
+            what = f"{N} paths x {T} time points x {len(names)} features, {case['evaluation']}"
+            with torch.no_grad():
+                u.register_buffer("spot", spot)
+                st, out, mut = call_impl(hedger.compute_hedge, d, [u], watch=[("derivative", d)])
+            if mut:
+                ctx.mutated("compute_hedge", mut, case)
+            ctx.case(case, True, tag="large")
+            ctx.traces += 1
+            if st != "ok":
+                ctx.fail(f"compute_hedge raised on a large simulation ({what})", case, key="compute_hedge:large:error", detail=str(out)[:200])
+                continue
+            if tuple(out.shape) != (N, 1, T):
+                ctx.fail(f"compute_hedge has the wrong shape ({what})", case, key="compute_hedge:large:shape", detail=list(out.shape))
+                continue
+            out = out.detach()
+            bad = (out[..., -1] != out[..., -2]).nonzero()
+            if len(bad):
+                p = int(bad[0][0])
+                ctx.fail(f"the position at the final time index differs from the one held over the last step ({what}): a trade at maturity",
+                         case, key="compute_hedge:large:last-column",
+                         detail={"path": p, "n_paths_affected": len(bad), "hedge[path, 0, -3:]": out[p, 0, -3:].tolist(),
+                                 "spot[path, -3:]": spot[p, -3:].tolist()})
+            # perturbation experiments: only the price at maturity; all prices after a random step t
+            for t in (T - 2, g.randint(0, T - 3)):
+                f = torch.tensor([float(g.choice([F(1, 2), F(3, 4), F(5, 4), F(2)])) for _ in range(T - 1 - t)], dtype=torch.float32)
+                spot2 = spot.clone()
+                spot2[:, t + 1:] = spot[:, t + 1:] * f
+                with torch.no_grad():
+                    u.register_buffer("spot", spot2)
+                    st2, out2, _ = call_impl(hedger.compute_hedge, d, [u])
+                    u.register_buffer("spot", spot)
+                c2 = case | {"t": t, "perturbation": f"spot[:, t+1:] multiplied column by column by {f.tolist()}"}
+                ctx.case(c2, True, tag="large:perturbed")
+                if st2 != "ok" or tuple(out2.shape) != (N, 1, T):
+                    ctx.fail(f"compute_hedge raised / has the wrong shape on the perturbed large simulation ({what})", c2,
+                             key="compute_hedge:large:error", detail=str(out2)[:200] if st2 != "ok" else list(out2.shape))
+                    continue
+                out2 = out2.detach()
+                bad = (out[..., : t + 1] != out2[..., : t + 1]).nonzero()
+                if len(bad):
+                    p, j = int(bad[0][0]), int(bad[0][2])
+                    ctx.fail(f"hedge ratios for steps 0..t change when only prices after step t are changed (look-ahead; {what})", c2,
+                             key="compute_hedge:large:lookahead",
+                             detail={"path": p, "step": j, "before": float(out[p, 0, j]), "after": float(out2[p, 0, j]), "n_entries_affected": len(bad)})
+                bad = (out2[..., -1] != out2[..., -2]).nonzero()
+                if len(bad):
+                    p = int(bad[0][0])
+                    ctx.fail(f"the position at the final time index differs from the one held over the last step (perturbed market; {what}): "
+                             "a trade at maturity", c2, key="compute_hedge:large:last-column",
+                             detail={"path": p, "n_paths_affected": len(bad), "hedge[path, 0, -3:]": out2[p, 0, -3:].tolist(),
+                                     "spot[path, -3:]": spot2[p, -3:].tolist()})
+                if t == T - 2:
+                    bad = (out != out2).nonzero()
+                    if len(bad):
+                        p, j = int(bad[0][0]), int(bad[0][2])
+                        ctx.fail(f"the hedge changes when only the price at maturity is changed ({what}): the positions depend on the maturity "
+                                 "price", c2, key="compute_hedge:large:maturity-price",
+                                 detail={"path": p, "index": j, "before": float(out[p, 0, j]), "after": float(out2[p, 0, j]),
+                                         "n_entries_affected": len(bad)})
+
+
 def check(ctx):
     torch, pfhedge = import_impl()
     from pfhedge.nn import Hedger, Naked, BlackScholes, WhalleyWilmott
@@ -1358,6 +1457,8 @@ def check(ctx):
     # ---------------- user models returning a view of their input / the input itself / the input modified in place, both evaluation orders,
     # with and without autograd
     view_models(ctx, torch, g, reqs, metas)
+    # ---------------- large simulations (feature tensors of several million elements; deterministic corpus on every tier)
+    large_simulations(ctx, torch, g)
     try:
         outs = ctx.driver(reqs + hreqs)
     except DriverBroken as e:
@@ -1406,4 +1507,6 @@ def check(ctx):
              "positions and the prev_output value read at each step, exact), plus hedgers with 2-5 hooks at once in random placements and registration order; Black-Scholes type models (4 options, WhalleyWilmott, also as "
              "ModuleOutput features) with strict subsets of model.inputs() x {Heston, RoughBergomi, LocalVolatility, user primary}: no-hedge recorded, any "
              "hedge produced checked with all later columns of every buffer changed; user models returning views of / the / the in-place modified input "
-             "(8 kinds x both evaluation orders x autograd on/off) against the step-by-step definition on fresh inputs, bitwise; distinct = sha1 of canonical case")
+             "(8 kinds x both evaluation orders x autograd on/off) against the step-by-step definition on fresh inputs, bitwise; LARGE simulations (deterministic corpus, every tier: 30000-70000 paths x 41 "
+             "time points and 180 paths x 4001 time points, 2-3 features, float32, linear model; all steps at once and step by step): last column, "
+             "perturbation of the maturity price only and of all prices after a random step, bitwise; distinct = sha1 of canonical case")
